@@ -1,6 +1,7 @@
 mod checks;
 mod cmp;
 mod dec;
+mod fegen;
 mod gast;
 mod irgen;
 mod ggen;
@@ -63,7 +64,11 @@ fn main() {
             if std::env::var("VERIF_SHOW").is_ok() {
                 match args[2].as_str() {
                     "C01" => checks::c01::show(&tape),
+                    "C12" => checks::c12::show(&phase, &tape),
                     _ => {}
+                }
+                if std::env::var("VERIF_SHOW").map(|v| v == "only").unwrap_or(false) {
+                    return;
                 }
             }
             let Some(report) = checks::replay(&args[2], &phase, &tape, seed) else {
